@@ -1056,6 +1056,7 @@ package jobs
 //@     assert [C13:the-expansion-is-cut-after-the-last-hash-as-every-other-writer-does] uriExpansion + postfix == fullG && hasSuffix(uriExpansion, "#") && !contains(postfix, "#")
 //@   at call AssertPrefixMappingForExpansion#2 before
 //@     assert [C13:without-a-hash-the-expansion-is-cut-after-the-last-slash] uriExpansion + postfix == fullG && hasSuffix(uriExpansion, "/") && !contains(postfix, "/")
+//@     assert [C13:a-hash-anywhere-after-the-first-character-wins-over-a-slash-as-in-every-other-writer] indexOf(fullG, "#") <= 0
 //@ unit (EgdmNamespaceManagerShim).AssertPrefixedIdentifierFromURI
 //@   prop C13
 //@   ghost fullG string = ""
@@ -1065,6 +1066,7 @@ package jobs
 //@     assert [C13:the-expansion-is-cut-after-the-last-hash-as-every-other-writer-does] uriExpansion + postfix == fullG && hasSuffix(uriExpansion, "#") && !contains(postfix, "#")
 //@   at call AssertPrefixMappingForExpansion#2 before
 //@     assert [C13:without-a-hash-the-expansion-is-cut-after-the-last-slash] uriExpansion + postfix == fullG && hasSuffix(uriExpansion, "/") && !contains(postfix, "/")
+//@     assert [C13:a-hash-anywhere-after-the-first-character-wins-over-a-slash-as-in-every-other-writer] indexOf(fullG, "#") <= 0
 
 // ---------------------------------------------------------------------------
 // C10: entities coming back from a context-aware HTTP transform keep their identity, content and deleted flag
